@@ -8,6 +8,7 @@ import (
 	"time"
 
 	"github.com/fatedier/frp/pkg/msg"
+	"github.com/fatedier/frp/server/visitor"
 	"github.com/fatedier/frp/zzverif"
 )
 
@@ -69,7 +70,7 @@ func VerifC04First() {
 	pm, plug := zzOnePlugin("p0")
 	svr := zzService(ver, pm)
 	conn := &zzConn{name: "c"}
-	kind := zzverif.Choice("firstMsg", 8)
+	kind := zzverif.Choice("firstMsg", 9)
 	switch kind {
 	case 0:
 		conn.script = []msg.Message{&msg.Login{RunID: "r1", ClientSpec: msg.ClientSpec{AlwaysAuthPass: zzverif.Bool("aap")}}}
@@ -85,10 +86,25 @@ func VerifC04First() {
 		conn.script = []msg.Message{&msg.NatHoleVisitor{}}
 	case 6:
 		conn.script = []msg.Message{&msg.CloseProxy{ProxyName: "x"}}
+	case 7:
+		// a visitor for a secret proxy nobody registered, with or without a (stale) run id
+		svr.rc.VisitorManager = visitor.NewManager()
+		conn.script = []msg.Message{&msg.NewVisitorConn{ProxyName: "nosuch", RunID: []string{"", "gone"}[zzverif.Choice("vrun", 2)], SignKey: "k"}}
 	default:
 		conn.script = nil // read error / malformed frame
 	}
 	svr.handleConnection(context.Background(), conn, false)
+	if kind == 7 {
+		zzverif.Assert(len(conn.written) == 1, "C08.first.refused-visitor-gets-one-answer")
+		if len(conn.written) == 1 {
+			r, isR := conn.written[0].(*msg.NewVisitorConnResp)
+			zzverif.Assert(isR && r.Error != "" && r.ProxyName == "nosuch", "C08.first.refused-visitor-is-told-so")
+		}
+		zzverif.Assert(conn.closed >= 1, "C08.first.refused-visitor-connection-closed")
+		zzverif.Assert(zzSessions(svr) == 0 && ver.loginCalls == 0, "C08.first.refused-visitor-leaves-no-state")
+		zzverif.Reach("C08.first.visitor-refused")
+		return
+	}
 
 	switch kind {
 	case 0:
